@@ -2351,3 +2351,141 @@ func c02OriginFields(p *Prog, v ssa.Value, depth int) []string {
 	}
 	return out
 }
+
+// ---------- tolerated sentinels are not aliased ----------
+
+// c02ToleratedGlobals: the package-level sentinels C02 tolerates at a
+// monitored call (package path relative to the module, variable name, where).
+var c02ToleratedGlobals = []struct{ pkg, name, where string }{
+	{"errdef", "ErrAlreadyExists", "after Pusher.Push / ReferencePusher.PushReference"},
+	{"", "SkipNode", "after the PreCopy callback"},
+}
+
+// c02ToleratedSentinels (R3, soundness of the tolerated idioms): a sentinel
+// that the copy tolerates with errors.Is / == must denote exactly its own
+// condition.  No other package-level error value of the module may be built to
+// match it under errors.Is — initialised from it directly, by fmt.Errorf with
+// a %w verb, errors.Join or any other wrapping constructor — and no error type
+// of the module may match it in an Is / Unwrap method: a store could then
+// return that value for a different condition ("duplicate name") and the copy
+// would drop the node and report success.
+func c02ToleratedSentinels(c *Ctx) {
+	const R = "C02.R3.tolerated-sentinel-not-aliased"
+	c.Expect(R, len(c02ToleratedGlobals))
+	for _, tg := range c02ToleratedGlobals {
+		sp := c.P.SPkgs[pkgPath(tg.pkg)]
+		var S *ssa.Global
+		if sp != nil {
+			S = sp.Var(tg.name)
+		}
+		sn := short(pkgPath(tg.pkg) + "." + tg.name)
+		if S == nil {
+			c.LostAnchor(R, "tolerated sentinel "+sn)
+			continue
+		}
+		scanned, bad := 0, 0
+		for path, pk := range c.P.SPkgs {
+			if !strings.HasPrefix(path, Mod) {
+				continue
+			}
+			// (a) package-level variables whose initial value derives from S
+			if init := pk.Func("init"); init != nil {
+				loads := map[ssa.Value]bool{}
+				AllInstrs(init, func(in ssa.Instruction) {
+					if u, ok := in.(*ssa.UnOp); ok && u.Op == token.MUL && u.X == ssa.Value(S) {
+						loads[u] = true
+					}
+				})
+				AllInstrs(init, func(in ssa.Instruction) {
+					st, ok := in.(*ssa.Store)
+					if !ok {
+						return
+					}
+					g, ok := st.Addr.(*ssa.Global)
+					if !ok || g == S {
+						return
+					}
+					scanned++
+					if len(loads) == 0 || !c02WrapsSentinel(st.Val, loads, 0) {
+						return
+					}
+					bad++
+					c.Violation(R, sn+"|"+short(g.Pkg.Pkg.Path()+"."+g.Name()), st.Pos(),
+						fmt.Sprintf("package-level error %s is built from %s (%s), so errors.Is(err, %s) — which the copy tolerates %s — also matches it: a store returning it for its own condition makes the copy drop the node and report success",
+							short(g.Pkg.Pkg.Path()+"."+g.Name()), sn, describe(st.Val), sn, tg.where))
+				})
+			}
+			// (b) Is / Unwrap methods of module types that consult S
+			for f := range c.P.All {
+				if f.Pkg != pk || f.Signature.Recv() == nil || len(f.Blocks) == 0 {
+					continue
+				}
+				if n := f.Name(); n != "Is" && n != "Unwrap" {
+					continue
+				}
+				reads := false
+				AllInstrs(f, func(in ssa.Instruction) {
+					if u, ok := in.(*ssa.UnOp); ok && u.Op == token.MUL && u.X == ssa.Value(S) {
+						reads = true
+					}
+				})
+				scanned++
+				if reads {
+					bad++
+					c.Violation(R, sn+"|"+FnName(f), f.Pos(),
+						fmt.Sprintf("%s makes errors of its type match %s under errors.Is, which the copy tolerates %s", FnName(f), sn, tg.where))
+				}
+			}
+		}
+		if bad == 0 {
+			c.OK(R, sn+"|no-alias", S.Pos(), fmt.Sprintf("no other package-level error value (%d initialisers and Is/Unwrap methods of the module examined) wraps or matches the sentinel tolerated %s", scanned, tg.where))
+		}
+	}
+}
+
+// c02WrapsSentinel: v is (or is constructed from) one of the loads of the
+// sentinel in a way that keeps it visible to errors.Is: the value itself, any
+// constructor receiving it — except fmt.Errorf whose constant format has no %w.
+func c02WrapsSentinel(v ssa.Value, loads map[ssa.Value]bool, depth int) bool {
+	if depth > 6 || v == nil {
+		return false
+	}
+	for _, r := range Roots(v) {
+		if loads[r] {
+			return true
+		}
+		switch u := r.(type) {
+		case *ssa.Call:
+			if CalleeName(u) == "fmt.Errorf" && len(u.Call.Args) > 0 {
+				if f, ok := constString(u.Call.Args[0]); ok && !strings.Contains(f, "%w") {
+					continue
+				}
+			}
+			for _, a := range u.Call.Args {
+				if c02WrapsSentinel(a, loads, depth+1) {
+					return true
+				}
+			}
+		case *ssa.Slice:
+			if c02WrapsSentinel(u.X, loads, depth+1) {
+				return true
+			}
+		case *ssa.Alloc:
+			for _, ref := range *u.Referrers() {
+				switch a := ref.(type) {
+				case *ssa.FieldAddr, *ssa.IndexAddr:
+					for _, r2 := range *a.(ssa.Value).Referrers() {
+						if st, ok := r2.(*ssa.Store); ok && c02WrapsSentinel(st.Val, loads, depth+1) {
+							return true
+						}
+					}
+				case *ssa.Store:
+					if a.Addr == ssa.Value(u) && c02WrapsSentinel(a.Val, loads, depth+1) {
+						return true
+					}
+				}
+			}
+		}
+	}
+	return false
+}
